@@ -321,10 +321,12 @@ func decodeTimeout(s string) (time.Duration, bool) {
 		return 0, false
 	}
 
-	t, err := strconv.ParseInt(s[:size-1], 10, 64)
+	// ParseUint, unlike ParseInt, rejects signs: the gRPC spec only allows 1-8 digits here.
+	ut, err := strconv.ParseUint(s[:size-1], 10, 63)
 	if err != nil {
 		return 0, false
 	}
+	t := int64(ut)
 
 	const maxHours = math.MaxInt64 / int64(time.Hour)
 	if d == time.Hour && t > maxHours {
